@@ -772,7 +772,7 @@ fn check_macro(property: &str, tier: &str, base_seed: u64, runs_override: Option
     let thorough = tier == "thorough";
     let (n, extra_n, stream): (u64, usize, u64) = match property {
         "C15" => (if thorough { 6000 } else { 800 }, 1, 31),
-        _ => (if thorough { 1600 } else { 160 }, 3, 32),
+        _ => (if thorough { 2400 } else { 320 }, 3, 32),
     };
     let n = runs_override.map(|r| std::cmp::max(8, r / 4)).unwrap_or(n);
     let known = report::load_known_findings();
